@@ -88,7 +88,9 @@ type CertSpec struct {
 	NotAfter   time.Time
 	KeySpec    string // default EC-256
 	KeyIdx     int
-	PathLen    int // for CAs: MaxPathLen (default 2)
+	PathLen    int    // for CAs: MaxPathLen (default 2)
+	CRLURL     string // a CRL distribution point written into the certificate
+	CRLSign    bool   // CAs: the key usage also includes cRLSign (the CA signs the CRLs of what it issues)
 }
 
 var oidEKU = asn1.ObjectIdentifier{2, 5, 29, 37}
@@ -127,6 +129,9 @@ func Mint(parent *Ent, s CertSpec) *Ent {
 	}
 	if s.RawSubject != nil {
 		tmpl.RawSubject = s.RawSubject
+	}
+	if s.CRLURL != "" {
+		tmpl.CRLDistributionPoints = []string{s.CRLURL}
 	}
 	switch s.Kind {
 	case "ca":
@@ -178,6 +183,9 @@ func Mint(parent *Ent, s CertSpec) *Ent {
 	p, pk := tmpl, key
 	if parent != nil {
 		p, pk = parent.Cert, parent.Key
+	}
+	if s.CRLSign {
+		tmpl.KeyUsage |= x509.KeyUsageCRLSign
 	}
 	der, err := x509.CreateCertificate(rand.Reader, tmpl, p, key.Public(), pk)
 	if err != nil {
